@@ -14,7 +14,7 @@ RULE = (
     "as POPULATION, PEEKABOO, _x, one-letter tags, doc comments, trailing ///) printed in a randomised free "
     "layout (stacked postfix operators, &! chains, every escape spelling, spaced PEEK[ a .. b ], ^ \"x\", "
     "nested block comments, leading |); (3) the 15 bundled .pest files; (4) single-token mutations (delete, "
-    "duplicate, swap, substitute from a vocabulary) of all of these; (5) a deterministic matrix of 4,347 texts: "
+    "duplicate, swap, substitute from a vocabulary) of all of these; (5) a deterministic matrix of about 4,700 texts: "
     "every escape form, intact and damaged (each hex digit position x characters a lenient integer parser "
     "tolerates, truncations, wrong case, stray blanks), in every literal position. Oracle: the transcribed meta-grammar "
     "run by the reference evaluator decides validity (self-checked as a fix-point of tests/grammars/meta.pest "
@@ -314,6 +314,15 @@ def literal_matrix():
         out.append('a = { PUSH_LITERAL("' + b + '") ~ PEEK }')
         out.append("a = { '" + b + "'..'\\u{10FFFF}' }")
         out.append("a = { '\\u{0}'..'" + b + "' }")
+    # keywords vs identifiers: every stack keyword x suffix, as rule name, as reference and as tag
+    for kw in ("PUSH", "PEEK", "POP", "DROP", "PEEK_ALL", "POP_ALL", "PUSH_LITERAL"):
+        for suf in ("", "X", "_", "1", "_ALL", "ED", "_LITERAL", "_LITERALS", "x", "S"):
+            name = kw + suf
+            out.append(name + ' = { "a" }')
+            out.append("a = { " + name + ' }\nb = { "x" }')
+            out.append("a = { b ~ " + name + ' }\nb = { "x" }\n' + name + ' = { "y" }')
+            out.append("a = { #" + name + ' = b }\nb = { "x" }')
+            out.append("a = { x" + name + ' }\nx' + name + ' = { "x" }')
     return out
 
 
